@@ -226,3 +226,21 @@ package types
 //@   ensures  majInv(voteSet)
 //@   loop 0 invariant 0 <= $i && $i <= len(votesByBlock.votes) && votesByBlock != nil && len(voteSet.votes) == len(votesByBlock.votes)
 //@   loop 0 invariant forall(j, 0, $i, votesByBlock.votes[j] != nil ==> voteSet.votes[j] == votesByBlock.votes[j])
+
+//@ define addrAt(vs *ValidatorSet, i Int) Bytes = vs.Validators[i].Address
+//@ define pubKeyAt(vs *ValidatorSet, i Int) Iface = vs.Validators[i].PubKey
+//@ define powerAt(vs *ValidatorSet, i Int) Int = vs.Validators[i].VotingPower
+
+//@ func (*VoteSet).addVote
+//@   props C15 C01 C08
+//@   let i = vote.ValidatorIndex
+//@   requires wfVoteSet(voteSet) && majInv(voteSet) && vote != nil
+//@   ensures  [accepted-only-if-valid] added ==> vote.Height == voteSet.height && vote.Round == voteSet.round && vote.Type == voteSet.type_ \
+//@              && 0 <= i && i < len(voteSet.votes) && bytesEq(vote.ValidatorAddress, addrAt(voteSet.valSet, i)) \
+//@              && sigOK(pubKeyAt(voteSet.valSet, i), voteSB(voteSet.chainID, vote), vote.Signature)
+//@   ensures  [counted-once] voteSet.sum == old(voteSet.sum) || (old(voteSet.votes[i]) == nil && voteSet.sum == old(voteSet.sum) + powerAt(voteSet.valSet, i))
+//@   ensures  [maj23-monotone] old(voteSet.maj23) != nil ==> voteSet.maj23 == old(voteSet.maj23) && *voteSet.maj23 == old(*voteSet.maj23)
+//@   ensures  [maj23-needs-accepted-vote] old(voteSet.maj23) == nil && voteSet.maj23 != nil ==> added && *voteSet.maj23 == vote.BlockID
+//@   ensures  [rejected-unchanged] !added && err == nil ==> voteSet.sum == old(voteSet.sum) && voteSet.maj23 == old(voteSet.maj23)
+//@   ensures  [conflict-reported] added && old(voteSet.votes[i]) != nil ==> err != nil
+//@   ensures  wfVoteSet(voteSet) && majInv(voteSet)
